@@ -460,9 +460,14 @@ class ASTSimplifyMapper(ASTIdentityMapper):
             return Block(*result)
 
         # current_child is the current AST node that is being worked on.
+        while children_queue and isinstance(children_queue[0], NullASTNode):
+            children_queue.popleft()
+
+        if not children_queue:
+            # Nothing remains of this block.
+            return NullASTNode()
+
         current_child = children_queue.popleft()
-        while isinstance(current_child, NullASTNode):
-            current_child = children_queue.popleft()
 
         while children_queue:
             next_child = children_queue.popleft()
